@@ -34,6 +34,12 @@ Definition tstep (c : cfg) (k : kind) (tnow : N) (s : tstate) (upd : option N) :
       end
   end.
 
+(* the two halves of an update in flight (see Model.op) *)
+Definition treg (s : tstate) : tstate :=
+  if present s then s else {| present := true; vals := []; anchor := None |}.
+Definition tcomp (s : tstate) (v : N) : tstate :=
+  if present s then {| present := true; vals := v :: vals s; anchor := None |} else s.
+
 (* run the machine of target [t] over a whole history; returns the outputs of t's observations
    in order *)
 Fixpoint trun (c : cfg) (t : target) (tnow : N) (s : tstate) (h : list op) : list out :=
@@ -46,6 +52,10 @@ Fixpoint trun (c : cfg) (t : target) (tnow : N) (s : tstate) (h : list op) : lis
   | Observe k key :: r =>
       if target_eqb t (k, key) then let '(s', x) := tstep c (fst t) tnow s None in x :: trun c t tnow s' r
       else trun c t tnow s r
+  | Register k key :: r =>
+      if target_eqb t (k, key) then trun c t tnow (treg s) r else trun c t tnow s r
+  | Complete k key v :: r =>
+      if target_eqb t (k, key) then trun c t tnow (tcomp s v) r else trun c t tnow s r
   end.
 
 (* the specified output of the i-th operation of a history: for an observation, what the
